@@ -221,8 +221,20 @@ def _drop_component(case, key):
     return c
 
 
+def _drop_spelling(case, key):
+    """the same document with one container spelling (docgen "spelling") back to the plain one"""
+    import copy
+
+    if key not in (case["spec"].get("spelling") or {}):
+        return None
+    c = copy.deepcopy(case)
+    del c["spec"]["spelling"][key]
+    return c
+
+
 def shrink(fam: Family, case, known_fn=None, budget=40):
-    """smallest prefix of the table (binary search) and fewest optional components on which the oracle still fails"""
+    """smallest prefix of the table (binary search), fewest optional components and fewest non-plain container
+    spellings on which the oracle still fails"""
     def fails(c):
         if c is None:
             return False
@@ -265,6 +277,21 @@ def shrink(fam: Family, case, known_fn=None, budget=40):
             if fails(cand):
                 cur, progress = cand, True
                 break
+    if cur is case and cur["spec"].get("spelling"):
+        import copy
+
+        cur = copy.deepcopy(case)
+    for key in sorted(cur["spec"].get("spelling") or {}):
+        comp = key.split(".")[0]
+        if comp != "headers" and comp != "sections" and cur["spec"].get(comp) is None:
+            del cur["spec"]["spelling"][key]       # the spelling of a component that was dropped
+            continue
+        if tries >= budget:
+            break
+        tries += 1
+        cand = _drop_spelling(cur, key)
+        if fails(cand):
+            cur = cand
     return cur
 
 
